@@ -8,7 +8,7 @@ Set Warnings "-ambiguous-paths".
 From Coquelicot Require Import Coquelicot.
 From PyLib Require Import PyVal PyBuiltins Ideal.
 From Gen Require Import M_base M_Angle M_Interpolation.
-From Proofs.C12 Require C12_defs C12_main C12_gen C12_gend C12_rootany C12_order.
+From Proofs.C12 Require C12_defs C12_main C12_gen C12_gend C12_rootany C12_order C12_set.
 From Coq Require Import Permutation Sorted.
 From Spec Require Newton.
 From Proofs.C12 Require Import C12_tac C12_nd C12_dup3 C12_ctor3 C12_ctor4 C12_ideal C12_root C12_witness.
@@ -313,6 +313,15 @@ Theorem C12_order_points_any : forall (px py : list R) (tb : val R),
   List.length xs' = List.length px /\ List.length ys' = List.length px.
 Proof. exact C12_order.order_any. Qed.
 
+(* [ideal] ORDER INDEPENDENCE for any n: two raw tables with the same (x, y) pairs in different orders (pairwise different
+   abscissae) are turned by _order_points into the IDENTICAL object (strictly sorted lists that are permutations of
+   each other are equal) *)
+Theorem C12_order_independent_any : forall (px py px' py' : list R) (tb : val R),
+  List.length py = List.length px -> List.length py' = List.length px' -> px <> [] -> px' <> [] ->
+  NoDup px -> NoDup px' -> Permutation (combine px py) (combine px' py') ->
+  Interpolation__order_points Rops (C12_gen.tobj px py tb) = Interpolation__order_points Rops (C12_gen.tobj px' py' tb).
+Proof. exact C12_order.order_independent. Qed.
+
 Theorem C12_stored_pipeline_any : forall px py : list R,
   List.length py = List.length px -> px <> [] -> C12_gen.separated px -> (List.length px <= 64)%nat ->
   let xs' := C12_order.sx px in let ys' := C12_order.sy px py in
@@ -322,6 +331,42 @@ Theorem C12_stored_pipeline_any : forall px py : list R,
      Interpolation___call__ Rops (C12_gen.built xs' ys') (VFloat (C12_gen.nthR xs' j)) = VFloat (C12_gen.nthR ys' j)) /\
   StronglySorted Rlt xs' /\ Permutation (combine xs' ys') (combine px py).
 Proof. exact C12_order.stored_pipeline. Qed.
+
+(* [ideal] THE CONSTRUCTOR, two-list form, ANY n in 2..64 (symbolic lists px, py of equal length, abscissae pairwise
+   at least tol apart, in any order): Interpolation(px, py) is the object with strictly increasing abscissae, the
+   ordinates carried along and the divided differences as coefficient table (every generated loop of set(): argument
+   dispatch, slices, zip loop, duplicate test, _order_points, _compute_table); it does not depend on the order of
+   the points; any pair of abscissae closer than tol gives ValueError.  Other input forms (two tuples, interleaved
+   scalars, copy constructor) are proved for n = 3, 4 only (C12_constructor_3/_4). *)
+Theorem C12_constructor_any : forall px py : list R,
+  List.length py = List.length px -> (2 <= List.length px <= 64)%nat -> C12_gen.separated px ->
+  let xs' := C12_order.sx px in let ys' := C12_order.sy px py in
+  Interpolation___init__ Rops (VObj cInterpolation [VNone; VNone; VNone; VNone])
+                         (VTuple [C12_gen.flist px; C12_gen.flist py]) = C12_gen.built xs' ys' /\
+  StronglySorted Rlt xs' /\ Permutation (combine xs' ys') (combine px py) /\
+  (forall j, (j < List.length px)%nat ->
+     Interpolation___call__ Rops (C12_gen.built xs' ys') (VFloat (C12_gen.nthR xs' j)) = VFloat (C12_gen.nthR ys' j)).
+Proof.
+  intros px py L Hn S xs' ys'.
+  assert (Hne : px <> []) by (intro E; rewrite E in Hn; simpl in Hn; lia).
+  destruct (C12_order.stored_pipeline px py L Hne S ltac:(lia)) as (_ & _ & Hc & Hs & Hp).
+  split; [apply C12_set.init_lists; assumption|]. split; [exact Hs|]. split; [exact Hp | exact Hc].
+Qed.
+
+Theorem C12_constructor_order_independent_any : forall px py px' py' : list R,
+  List.length py = List.length px -> List.length py' = List.length px' ->
+  (2 <= List.length px <= 64)%nat -> C12_gen.separated px -> C12_gen.separated px' ->
+  Permutation (combine px py) (combine px' py') ->
+  Interpolation___init__ Rops (VObj cInterpolation [VNone; VNone; VNone; VNone]) (VTuple [C12_gen.flist px; C12_gen.flist py])
+  = Interpolation___init__ Rops (VObj cInterpolation [VNone; VNone; VNone; VNone]) (VTuple [C12_gen.flist px'; C12_gen.flist py']).
+Proof. exact C12_set.init_order_independent. Qed.
+
+Theorem C12_duplicates_any : forall px py : list R,
+  List.length py = List.length px -> (2 <= List.length px)%nat ->
+  (exists a b, (a < b < List.length px)%nat /\ Rabs (C12_gen.nthR px a - C12_gen.nthR px b) < Rlit 1 (-10)) ->
+  Interpolation___init__ Rops (VObj cInterpolation [VNone; VNone; VNone; VNone]) (VTuple [C12_gen.flist px; C12_gen.flist py])
+  = VErr ValueError.
+Proof. exact C12_set.init_dups. Qed.
 
 (* [ideal, n = 3 only, two-list form only] duplicated abscissae (any pair closer than tol) are refused with ValueError (three points, two-list form) *)
 Theorem C12_duplicates : forall p1 p2 p3 q1 q2 q3,
@@ -464,7 +509,11 @@ Redirect "C12_derivative_any.assumptions" Print Assumptions C12_derivative_any.
 Redirect "C12_derivative_two.assumptions" Print Assumptions C12_derivative_two.
 Redirect "C12_refused_any.assumptions" Print Assumptions C12_refused_any.
 Redirect "C12_order_points_any.assumptions" Print Assumptions C12_order_points_any.
+Redirect "C12_order_independent_any.assumptions" Print Assumptions C12_order_independent_any.
 Redirect "C12_stored_pipeline_any.assumptions" Print Assumptions C12_stored_pipeline_any.
+Redirect "C12_constructor_any.assumptions" Print Assumptions C12_constructor_any.
+Redirect "C12_constructor_order_independent_any.assumptions" Print Assumptions C12_constructor_order_independent_any.
+Redirect "C12_duplicates_any.assumptions" Print Assumptions C12_duplicates_any.
 Redirect "C12_root_step.assumptions" Print Assumptions C12_root_step.
 Redirect "C12_root_sound.assumptions" Print Assumptions C12_root_sound.
 Redirect "C12_root_witness.assumptions" Print Assumptions C12_root_witness.
